@@ -533,7 +533,7 @@ static void gen_case(long idx, vrng *r, ccase *c, const char *prop)
 		adler_c1 = 241 + (int) vrn(r, 16) + 257 * (int) vrn(r, 8); c->n = (size_t) adler_c1 + 5552 + vrn(r, 20000); memset(inbuf, 0xff, c->n); if (vrn(r, 3) == 0) for (size_t i = 0; i < c->n; i += 1 + vrn(r, 900)) inbuf[i] = (uint8_t) (0xfc + vrn(r, 4));
 		c->infam = 2; c->oneshot = 0; c->ikind = 99; c->fkind = 1; c->okind = NOCH - 1; c->wrapper = vrn(r, 2) ? IGZIP_ZLIB : IGZIP_ZLIB_NO_HDR; c->discipline = 0; c->eospol = 0; c->dictmode = 0; c->fresh_out = 0;
 	}
-	if ((!strcmp(prop, "C05") || !strcmp(prop, "C07") || !strcmp(prop, "C01")) && !adler_sat && !c->dictmode && vrn(r, 30) == 0) {
+	if ((!strcmp(prop, "C05") || !strcmp(prop, "C07") || !strcmp(prop, "C01")) && !adler_sat && !c->dictmode && vrn(r, !strcmp(prop, "C05") ? 8 : 30) == 0) {
 		/* a small first chunk, then chunks of hundreds of KB which the codec processes in place: blocks that began in an earlier (released) chunk end here */
 		c->oneshot = 0; c->ikind = 98; big_c1 = vrn(r, 3) ? 1 + (int) vrn(r, 700) : 1 + (int) vrn(r, 6000); c->infam = vrn(r, 3) ? 3 : 7; c->level = vrn(r, 4) ? 3 : 1 + (int) vrn(r, 2); c->lvlkind = 2 + (int) vrn(r, 3);
 		c->n = 250000 + vrn(r, 500000); if (c->infam == 3) vr_fill(r, inbuf, c->n); else { markov(r, inbuf, c->n); for (int k = 0; k < 10; k++) { size_t at = vrn(r, (uint32_t) c->n), l = vrn(r, 60000); if (at + l > c->n) l = c->n - at; vr_fill(r, inbuf + at, l); } }
